@@ -185,10 +185,21 @@ class Inliner:
         for a, d in zip(fn.args.kwonlyargs, fn.args.kw_defaults):
             if a.arg not in bound and d is not None:
                 bound[a.arg] = d
+        stored = {n.id for n in ast.walk(fn) if isinstance(n, ast.Name) and isinstance(n.ctx, (ast.Store, ast.Del))}
+        has_closure = any(isinstance(n, (ast.FunctionDef, ast.AsyncFunctionDef, ast.Lambda)) for n in ast.walk(fn) if n is not fn)
         for p in pos + kwonly:
             if p in bound:
-                st = ast.Assign(targets=[ast.Name(id=mapping[p], ctx=ast.Store())], value=clone(bound[p]))
+                arg = bound[p]
+                if isinstance(arg, ast.Name) and p not in stored and not has_closure and not arg.id.startswith("__r"):
+                    # the parameter is never rebound in the helper and the caller's variable cannot change while the
+                    # helper's body runs: use the caller's name directly (no alias for the rules to see through)
+                    mapping[p] = arg.id
+                    continue
+                st = ast.Assign(targets=[ast.Name(id=mapping[p], ctx=ast.Store())], value=clone(arg))
                 pre.append(ast.copy_location(st, call))
+        # counted before the returns are rewritten (the rewriter edits nested statements in place)
+        n_ret = sum(1 for n in walk_no_nested(fn) if isinstance(n, ast.Return))
+        last = fn.body[-1] if fn.body else None
         body = [s for s in fn.body if not (isinstance(s, ast.Expr) and isinstance(s.value, ast.Constant) and isinstance(s.value.value, str))]
         ren = _Renamer(mapping)
         body = [ren.visit(s) for s in body]
@@ -204,7 +215,19 @@ class Inliner:
                 out: list[ast.stmt] = []
                 val = node.value if node.value is not None else ast.Constant(value=None)
                 if target is not None:
-                    out.append(ast.copy_location(ast.Assign(targets=[clone(target)], value=val), node))
+                    split = False
+                    if isinstance(target, ast.Tuple) and isinstance(val, ast.Tuple) and len(target.elts) == len(val.elts) \
+                            and all(isinstance(t, ast.Name) for t in target.elts):
+                        tnames = {t.id for t in target.elts}
+                        rnames = {n.id for v in val.elts for n in ast.walk(v) if isinstance(n, ast.Name)}
+                        split = not (tnames & rnames)
+                    if split:
+                        # `a, b = (E1, E2)` with E1, E2 not reading a or b: two plain assignments, so that each
+                        # variable has its own defining expression
+                        for t, v in zip(target.elts, val.elts):
+                            out.append(ast.copy_location(ast.Assign(targets=[clone(t)], value=v), node))
+                    else:
+                        out.append(ast.copy_location(ast.Assign(targets=[clone(target)], value=val), node))
                 elif node.value is not None:
                     out.append(ast.copy_location(ast.Expr(value=val), node))
                 out.append(ast.copy_location(ast.Break(), node))
@@ -219,21 +242,19 @@ class Inliner:
         for s in body:
             r = rr.visit(s)
             new_body += r if isinstance(r, list) else [r]
-        if target is not None:
-            new_body.append(ast.copy_location(ast.Assign(targets=[clone(target)], value=ast.Constant(value=None)), call))
-        new_body.append(ast.copy_location(ast.Break(), call))
+        falls_through = not isinstance(last, (ast.Return, ast.Raise))
+        if falls_through:
+            if target is not None:
+                new_body.append(ast.copy_location(ast.Assign(targets=[clone(target)], value=ast.Constant(value=None)), call))
+            new_body.append(ast.copy_location(ast.Break(), call))
         # a helper whose body is a straight line ending in one return needs no loop wrapper
-        n_ret = sum(1 for n in walk_no_nested(fn) if isinstance(n, ast.Return))
-        last = fn.body[-1] if fn.body else None
         if n_ret == 1 and isinstance(last, ast.Return):
-            flat = new_body[:-2]  # drop the fall-through `target = None; break`
+            flat = list(new_body)
             if flat and isinstance(flat[-1], ast.Break):
                 flat = flat[:-1]
             stmts = pre + flat
         elif n_ret == 0:
-            stmts = pre + new_body[:-1]
-            if target is None and stmts and isinstance(stmts[-1], ast.Break):
-                stmts = stmts[:-1]
+            stmts = pre + (new_body[:-1] if falls_through else new_body)
         else:
             loop = ast.While(test=ast.Constant(value=True), body=new_body, orelse=[])
             stmts = pre + [ast.copy_location(loop, call)]
